@@ -341,6 +341,18 @@ func genG03(repo string, w *Out) error {
 	if err != nil {
 		return err
 	}
+	// the request's read deadline is cleared before the copiers start (net/http's Hijack does it for the handler)
+	clears := false
+	{
+		tcalls := g03Calls(pc, tn.Body)
+		cl, ok1 := g03Find(tcalls, "p.conn.SetReadDeadline(time.Time{})")
+		bi, ok2 := g03Find(tcalls, "bicopy(")
+		if !ok2 {
+			return fmt.Errorf("proxy_conn.go tunnel: bicopy call not found")
+		}
+		clears = ok1 && cl.pos < bi.pos
+	}
+	w.DefBool("tunnel_clears_read_deadline", clears)
 	w.DefBool("tunnel_drain_first", df1 && df2)
 	w.DefBool("up_copier_reads_bufio", ub1 || ub2)
 
